@@ -23,7 +23,7 @@ func init() {
 		"part C (loader state): the same relative reference text in two directories, all DoFile histories (shared with C20); part D (one reference text, several documents): four documents, each with its own #/$defs/Common referred to by the same text as allOf member / anyOf member / property, with distinct ids and without ids: every history of <= 2 (thorough: <= 4) documents on one generator must yield the union of the single-document declarations up to the generator's renaming of colliding names; non-trivial = differs from base; distinct = (source hash, document)"
 }
 
-var c10Devs = []string{"NULL_OBJECT_VALIDATES_ZERO", "LEN_BYTES", "UNENFORCED_NAMED_ARRAY", "UNENFORCED_ITEM_STRING", "UNENFORCED_ITEM_NUMERIC", "REF_UNTYPED_DEF_IS_ANY", "FORMAT_DEF_NO_METHODS", "UNENFORCED_NAMED_ARRAY_ITEM_REQUIRED",
+var c10Devs = []string{"RECURSIVE_ALLOF_UNROLLED_THEN_ANY", "NULL_OBJECT_VALIDATES_ZERO", "LEN_BYTES", "UNENFORCED_NAMED_ARRAY", "UNENFORCED_ITEM_STRING", "UNENFORCED_ITEM_NUMERIC", "REF_UNTYPED_DEF_IS_ANY", "FORMAT_DEF_NO_METHODS", "UNENFORCED_NAMED_ARRAY_ITEM_REQUIRED",
 	"UNENFORCED_INLINE_STRUCT_PROPS", "COMPOSITE_DEF_REF_IS_ANY", "ANYOF_MERGED_FIELD_TYPES", "UNENFORCED_MAPVAL_STRING", "UNENFORCED_MAPVAL_NUMERIC", "UNENFORCED_MAPVAL_REQUIRED", "NULLTYPE_UNENFORCED",
 	"RECURSIVE_ANYOF_IS_ANY", "DEFAULT_BEHIND_REF_IGNORED"}
 
@@ -264,15 +264,33 @@ func c10(ctx *Ctx) {
 		return []J{{"type": "object", "properties": J{"a": J{"type": "string"}}, "required": A{"a"}}, {"type": "object", "properties": J{"b": J{"type": "integer"}}, "required": A{"b"}},
 			{"type": "object", "properties": J{"c": J{"type": "boolean"}}}}[i]
 	}, false)})
-	casesB := c10CasesB(ctx.Level)
+	allB := c10CasesB(ctx.Level)
+	var casesB, acceptOnly []SCase
+	for _, c := range allB {
+		if c.Axes["leaf"] == "self/allOf-items" || c.Axes["leaf"] == "two-cycle/allOf" {
+			acceptOnly = append(acceptOnly, c)
+		} else {
+			casesB = append(casesB, c)
+		}
+	}
+	// recursion through allOf in its other shapes: where the cycle closes the position is interface{} (KF-C10-7), at a depth that depends on
+	// the shape of the graph; judged here: generation terminates, the program compiles, and every VALID document of nesting depth 0..5 is accepted
+	runBehaviour(ctx, behaviour{Name: "recursion-allof-shapes", Cases: acceptOnly, Devs: c10Devs,
+		DocFilter: func(sc *SCase, d *refmodel.Doc, tv refmodel.Verdict) bool { return tv == refmodel.Accept },
+		OnGenErr: func(sc *SCase, msg string) {
+			ctx.Run.Violation("recursive-not-generated:"+sc.Axes["leaf"], fmt.Sprintf("%s: recursive schema: %s", sc.ID, firstLine(msg)), map[string]any{"kind": "gen", "files": sc.Case().Files, "args": sc.Case().Args, "cfg": sc.Case().Cfg})
+		},
+		OnBuildErr: func(sc *SCase, msg string) {
+			ctx.Run.Violation("recursive-not-compiling:"+sc.Axes["leaf"], fmt.Sprintf("%s: the program generated for a recursive schema does not compile: %s", sc.ID, firstLine(msg)), map[string]any{"kind": "gen", "files": sc.Case().Files, "args": sc.Case().Args, "cfg": sc.Case().Cfg})
+		}})
 	runBehaviour(ctx, behaviour{Name: "recursion", Cases: casesB, Devs: c10Devs, Values: true,
 		OnGenErr: func(sc *SCase, msg string) {
 			replay := map[string]any{"kind": "gen", "files": sc.Case().Files, "args": sc.Case().Args, "cfg": sc.Case().Cfg}
 			switch {
 			case strings.HasPrefix(msg, "ERROR") && sc.Axes["unsat"] == "true":
 				return
-			case (strings.Contains(msg, "RUNAWAY") || msg == "HANG" || strings.Contains(msg, "stack overflow")) && strings.Contains(sc.Axes["leaf"], "allOf") && ctx.Run.Listed("RECURSION_THROUGH_ALLOF_NO_TERMINATION"):
-				ctx.Run.Known("RECURSION_THROUGH_ALLOF_NO_TERMINATION", sc.ID+": "+lastLine(msg), replay)
+			case (strings.Contains(msg, "RUNAWAY") || msg == "HANG" || strings.Contains(msg, "stack overflow")) && sc.Axes["leaf"] == "self/two-anyOf-item-edges" && ctx.Run.Listed("TWO_RECURSIVE_ANYOF_ITEM_EDGES_NO_TERMINATION"):
+				ctx.Run.Known("TWO_RECURSIVE_ANYOF_ITEM_EDGES_NO_TERMINATION", sc.ID+": "+lastLine(msg), replay)
 			case strings.HasPrefix(msg, "PANIC") && sc.Axes["leaf"] == "root-self-ref" && ctx.Run.Listed("ROOT_SELF_REF_PANICS"):
 				ctx.Run.Known("ROOT_SELF_REF_PANICS", sc.ID+": "+firstLine(msg), replay)
 			default:
@@ -366,6 +384,12 @@ func c10CasesB(level int) []SCase {
 	add("three-cycle/props", false, J{"a": ref("A")}, J{"A": J{"type": "object", "properties": J{"b": ref("B"), "x": in}}, "B": J{"type": "object", "properties": J{"c": ref("C")}}, "C": J{"type": "object", "properties": J{"a": ref("A"), "z": str}}})
 	add("self/allOf", false, J{"t": ref("T")}, J{"T": J{"type": "object", "properties": J{"v": in, "next": J{"allOf": A{ref("T"), J{"type": "object", "properties": J{"extra": str}}}}}}})
 	add("self/anyOf", false, J{"t": ref("T")}, J{"T": J{"type": "object", "properties": J{"v": in, "alt": J{"anyOf": A{ref("T"), J{"type": "object", "properties": J{"leaf": str}, "required": A{"leaf"}}}}}}})
+	// recursion through allOf in the other shapes: through items, through a second definition, mixed with anyOf
+	add("self/allOf-items", false, J{"t": ref("T")}, J{"T": J{"type": "object", "properties": J{"v": in, "kids": J{"type": "array", "items": J{"allOf": A{ref("T")}}}}}})
+	add("two-cycle/allOf", false, J{"a": ref("A")}, J{"A": J{"type": "object", "properties": J{"x": in, "b": J{"allOf": A{ref("B")}}}}, "B": J{"type": "object", "properties": J{"y": str, "a": J{"allOf": A{ref("A")}}}}})
+	// two array properties of one definition, each with items that are an anyOf back to the definition
+	leafObj := J{"type": "object", "properties": J{"s": str}, "required": A{"s"}}
+	add("self/two-anyOf-item-edges", false, J{"t": ref("T")}, J{"T": J{"type": "object", "properties": J{"l": J{"type": "array", "items": J{"anyOf": A{ref("T"), leafObj}}}, "r": J{"type": "array", "items": J{"anyOf": A{ref("T"), leafObj}}}}}})
 	add("root-self-ref", false, J{"v": in, "again": J{"$ref": "#"}}, J{})
 	if level >= 1 {
 		add("self/two-edges", false, J{"t": ref("T")}, J{"T": J{"type": "object", "properties": J{"l": ref("T"), "r": ref("T"), "v": in}}})
